@@ -246,7 +246,7 @@ impl DiagnosticMessage for Error {
                     "invalid escape character: {}",
                     ch.map_or_else(|| "none".to_string(), |ch| ch.to_string())
                 ),
-                Span::new(*start, *start + 1),
+                Span::new(*start, *start + ch.map_or(1, char::len_utf8)),
             )],
 
             UnicodeEscape { start, end } => vec![Label::primary(
@@ -667,6 +667,13 @@ impl StringLiteralToken<&str> {
         let mut segments = Vec::new();
 
         let chars = self.0.chars().collect::<Vec<_>>();
+        // Byte offset of every char (and of the end of the string), spans are in bytes.
+        let offsets = self
+            .0
+            .char_indices()
+            .map(|(offset, _)| offset)
+            .chain(std::iter::once(self.0.len()))
+            .collect::<Vec<_>>();
         let mut template = false;
         let mut current = String::new();
 
@@ -679,7 +686,8 @@ impl StringLiteralToken<&str> {
                         let seg = std::mem::take(&mut current);
                         segments.push(StringSegment::Template(
                             seg.trim().to_string(),
-                            Span::new(pos - seg.chars().count() - 1, pos + 3) + span.start(),
+                            Span::new(offsets[pos] - seg.len() - 1, offsets[pos] + 3)
+                                + span.start(),
                         ));
                     }
                     template = false;
@@ -707,7 +715,8 @@ impl StringLiteralToken<&str> {
                         let seg = std::mem::take(&mut current);
                         segments.push(StringSegment::Literal(
                             unescape_string_literal(&seg),
-                            Span::new(pos - seg.chars().count() + 1, pos + 1) + span.start(),
+                            Span::new(offsets[pos] - seg.len() + 1, offsets[pos] + 1)
+                                + span.start(),
                         ));
                     }
                     template = true;
@@ -723,7 +732,7 @@ impl StringLiteralToken<&str> {
         if !template && !current.is_empty() {
             segments.push(StringSegment::Literal(
                 unescape_string_literal(&current),
-                Span::new(pos - current.chars().count() + 1, pos + 1) + span.start(),
+                Span::new(offsets[pos] - current.len() + 1, offsets[pos] + 1) + span.start(),
             ));
         }
 
@@ -1022,7 +1031,14 @@ impl<'input> Lexer<'input> {
                             s if s.starts_with('"') => {
                                 let r = Lexer::new(&self.input[pos + 1..])
                                     .string_literal(0)
-                                    .map_err(|e| e.offset_by(pos + 1))?;
+                                    .map_err(|e| match e {
+                                        // The literal starts at the opening quote, which is
+                                        // not part of the input of the nested lexer.
+                                        Error::StringLiteral { start } => {
+                                            Error::StringLiteral { start: start + pos }
+                                        }
+                                        e => e.offset_by(pos + 1),
+                                    })?;
                                 match literal_check(r, &mut chars) {
                                     Ok(ch) => ch,
                                     Err(()) => {
